@@ -19,6 +19,11 @@ void harness(void) {
 #else
   _Bool r = SETTER(&u, input);
   __CPROVER_assert(r || agg_eq(&u, &old), "postcondition: a setter that returns false leaves the URL exactly as it was");
+#ifdef SETTER_CRED
+  /* "A URL cannot have a username/password/port if its host is null or the empty string, or its scheme is file" */
+  __CPROVER_assert(!(old.base.type == E_ada_scheme_type_FILE || old.components.host_start == old.components.host_end) || !r,
+                   "postcondition: credentials / port are refused when the host is null or empty or the scheme is file");
+#endif
 #endif
   __CPROVER_assert(!(old.buffer.n <= g_max_input_length) || u.buffer.n <= g_max_input_length, "postcondition: href length stays within the configured maximum");
   __CPROVER_assert(u.base.is_valid, "postcondition: the URL stays valid");
